@@ -478,6 +478,11 @@ where
     T: Metric + From<String>,
 {
     let b = decorate(b, decos);
+    if UNSENT.with(|u| u.get()) {
+        // the builder is made, decorated and let go without sending
+        drop(b);
+        return Ret::Quiet;
+    }
     match form {
         Form::Quiet => {
             b.send();
@@ -485,6 +490,26 @@ where
         }
         _ => ret_of(b.try_send()),
     }
+}
+
+thread_local! {
+    static UNSENT: std::cell::Cell<bool> = const { std::cell::Cell::new(false) };
+}
+
+/// Make the tagged builder for `spec`, decorate it, and drop it WITHOUT sending: nothing is sent and nobody is told
+/// anything (a builder is not a call).
+pub fn build_and_drop(client: &StatsdClient, spec: &CallSpec) {
+    struct Reset;
+    impl Drop for Reset {
+        fn drop(&mut self) {
+            UNSENT.with(|u| u.set(false));
+        }
+    }
+    let _r = Reset;
+    UNSENT.with(|u| u.set(true));
+    let mut s2 = spec.clone();
+    s2.form = Form::Tagged;
+    let _ = call(client, &s2);
 }
 
 /// Is this (kind, value) combination callable at all (i.e. does it type-check in user code)?
